@@ -115,6 +115,8 @@ READY = {
 
 # glue added by site extraction (DESIGN §12.2): appended to the level text / note / technique of the property
 GLUE = {
+    "C02": "The time arithmetic of the select model (range tests, snap-to-grid shift, on-grid test, sample_at) is proved equal (Props/C02Glue.lean) to the expressions REGENERATED from RecordTensor.select on every run.",
+    "C05": "The convolution output-size formula of the model (integer floor division) is proved equal (Props/C05Glue.lean), for every positive stride, to the float-division + math.floor expression REGENERATED from Conv2D.__init__ on every run.",
     "C03": "The class wiring executed by the driver (Model/NeuronF.lean: which kernel, time constant, threshold, input, reset rule, adaptation update per class) is proved equal (Props/C03GlueF.lean) to the _integrate_v / forward call sites REGENERATED from the neuron classes on every run.",
     "C01": "Pointer arithmetic: Ring.unwind is proved equal (Props/C13Glue.lean) to _unwind_ptr as REGENERATED from core/infrastructure.py on every run.",
     "C04": "The per-step recurrences of the model are proved equal (Props/C04Glue.lean) to the right-hand sides of self.current / pos_current / neg_current, the delta-plus pulse and the spike_to_current closure REGENERATED from the synapse classes' source on every run (site extraction).",
